@@ -252,6 +252,7 @@ def run(ctx, scratch):
         ctx.notes.append('%d square-root table entries missed the contract |s*s-d| <= 1e-12 d' % sqrt_bad)
 
     with Impl(scratch) as impl:
+        conv_src = []
         for i, c in enumerate(cases):
             args = impl_args(c)
             r = impl.call('c19', 'layer_forward', args, timeout=30)
@@ -275,6 +276,8 @@ def run(ctx, scratch):
             if i in model and not mat_close(out, model[i]):
                 ctx.violation('Convolution.forward', 'implementation differs from the exact-Q model', case=args,
                               expected=model[i], observed=out, kind='model', **fields)
+            if len(conv_src) < (48 if quick else 400) and c['n'] <= 8:
+                conv_src.append((c, args, r['ok']['embedding']))
             o = r['ok']
             if 'second_layer_fresh' in o and not mat_close(o['second_layer_same_object'], o['second_layer_fresh'], 1e-12):
                 ctx.violation('Convolution.forward', 'a second layer applied to the adjacency object the first layer has just used does '
@@ -301,6 +304,39 @@ def run(ctx, scratch):
                     if not mat_close(out2, expect2):
                         ctx.violation('Convolution.forward', 'renumbering the nodes does not permute the output rows',
                                       case=dict(args=args, perm=p), expected=expect2, observed=out2, kind='equivariance', **fields)
+
+        # ---- (a2) the pre-activation embedding regenerated from layer.py (Gen/NpConv.v; theorem source_conv_embedding of Props/C19.v)
+        #      evaluated inside Coq over exact rationals (square roots of the out-weights as a finite table of the float values)
+        #      must reproduce layer.embedding
+        import math as _m
+        sexprs = []
+        for (c, args, emb) in conv_src:
+            n = c['n']
+            dense = [[Fraction(0)] * n for _ in range(n)]
+            for (i_, j_, w_) in c['triples']:
+                dense[i_][j_] += Fraction(w_)
+            ws = sorted({sum(row, Fraction(0)) for row in dense})
+            tab = clist([(w_, Fraction(_m.sqrt(float(w_)))) for w_ in ws if w_ >= 0], lambda kv: '(%s, %s)' % (cq(kv[0]), cq(kv[1])))
+            term = {'left': 'src_conv_embedding_left', 'right': 'src_conv_embedding_right', 'both': 'src_conv_embedding_both'}[c['norm']]
+            Xd = c['X'] if isinstance(c['X'], list) and c['X'] and isinstance(c['X'][0], list) else None
+            if Xd is None:
+                continue
+            sexprs.append(('map (map qz3) (qmresult (qvdenote_sqrt %s (qenv_conv %s %d %s %d %s %d %s %s %s) %s))' % (
+                tab, qmat([[Fraction(v) for v in row] for row in dense]), n, qmat(Xd), c['d'], qmat(c['weight']), c['out'],
+                clist(c['bias'], cq), cbool(c['self_embeddings']), cbool(c['use_bias']), term), c, args, emb))
+        svals = safe_coq_eval(ctx, 'c19conv', ['Base.Util', 'Model.NpExpr', 'Model.NpVec', 'Gen.NpConv'], [e[0] for e in sexprs],
+                              prelude='Definition qz3 (q : Q) : Z * Z := (Qnum q, Zpos (Qden q)).\n', shard=24) if sexprs else []
+        n_conv = 0
+        for (_, c, args, emb), v in zip(sexprs, svals or []):
+            n_conv += 1
+            ctx.count('source_term:Convolution.forward:' + c['norm'], ('srcconv', args), True)
+            exp = [[float(Fraction(x[0], x[1])) for x in row] for row in v]
+            if not mat_close(emb, exp, 1e-9):
+                ctx.violation('Convolution.forward', 'the embedding regenerated from layer.py (src_conv_embedding_%s), evaluated with the '
+                              'array semantics of Model/NpVec.v, differs from layer.embedding' % c['norm'], case=args, expected=exp,
+                              observed=emb, kind='source_term', norm=c['norm'], self_embeddings=c['self_embeddings'],
+                              use_bias=c['use_bias'])
+        ctx.extra['source_conv_terms_evaluated'] = n_conv
 
         # ============================ (b) gradients ================================================
         grad_cases = []
